@@ -311,10 +311,8 @@ impl ArcExpression {
             }
             Bound(varname) => Some(binding.v.contains_key(varname.as_str()).into()),
             If(c, t, e) => {
-                if c.eval(binding, config, graph_matcher)?
-                    .is_truthy()
-                    .unwrap_or(false)
-                {
+                // NB: an error in the effective boolean value of the condition is an error of the IF
+                if c.eval(binding, config, graph_matcher)?.is_truthy()? {
                     t.eval(binding, config, graph_matcher)
                 } else {
                     e.eval(binding, config, graph_matcher)
